@@ -141,6 +141,7 @@ fn strategy_to_json(s: &Strategy) -> J {
         Strategy::Uniform => J::obj().set("kind", "uniform"),
         Strategy::Pct { change } => J::obj().set("kind", "pct").set("change", change.clone()),
         Strategy::Burst { den } => J::obj().set("kind", "burst").set("den", *den),
+        Strategy::AfterWrite { den } => J::obj().set("kind", "after_write").set("den", *den),
         Strategy::Stall { tid, from, len } => J::obj()
             .set("kind", "stall")
             .set("tid", *tid)
@@ -155,6 +156,7 @@ fn strategy_from_json(j: &J) -> Strategy {
             change: j.garr("change").iter().filter_map(J::u).collect(),
         },
         "burst" => Strategy::Burst { den: j.gu("den") as usize },
+        "after_write" => Strategy::AfterWrite { den: j.gu("den") as usize },
         "stall" => Strategy::Stall {
             tid: j.gu("tid") as usize,
             from: j.gu("from"),
@@ -947,9 +949,10 @@ fn gen_kind(rng: &mut Rng, custom: bool) -> ClassKind {
 }
 
 fn gen_strategy(rng: &mut Rng, n: usize, expected: u64, stall_bias: bool) -> Strategy {
-    let pick = if stall_bias { rng.weighted(&[2, 3, 2, 4]) } else { rng.weighted(&[4, 3, 3, 1]) };
+    let pick = if stall_bias { rng.weighted(&[2, 3, 2, 4, 2]) } else { rng.weighted(&[4, 3, 3, 1, 3]) };
     match pick {
         0 => Strategy::Uniform,
+        4 => Strategy::AfterWrite { den: rng.range(4, 16) },
         1 => {
             let d = rng.range(1, 3);
             Strategy::Pct {
@@ -975,7 +978,8 @@ pub struct GenOpts {
 
 pub fn gen_case(rng: &mut Rng, kind: &str, o: &GenOpts) -> ConcCase {
     let n = if rng.chance(2, 3) { 2 } else { 3 };
-    let ck = gen_kind(rng, o.custom);
+    // with the C13 oracle on, half of the runs use the policy with unusable class pairs
+    let ck = if o.custom && rng.chance(1, 3) { ClassKind::Custom } else { gen_kind(rng, o.custom) };
     let mut setup = Vec::new();
     let mut deals = Vec::new();
     let mut programs: Vec<Vec<SOp>> = vec![Vec::new(); n];
